@@ -233,6 +233,51 @@ def _scripted_large_history(w, t, hist_log) -> None:
     w.clock.now_ms += 50
 
 
+def _scripted_many_gaps_history(w, t, hist_log) -> None:
+    """SCALE, sender side (no tape entry of its own; runs with every "scripted_large" history): an earlier acknowledged
+    transfer of 140 segments whose peer asks for every second segment in ONE NAK PDU (70 segment requests - more than any
+    per-call batch an implementation may serve a NAK in), and whose user cancels right after the call that took the NAK.
+    Whatever the sender kept for serving that NAK must not reach T's first NAK."""
+    from spacepackets.cfdp.pdu import NakPdu
+
+    c = w.cfg
+    if c.metadata_only or c.mode != ACK:
+        return
+    a = w.a
+    seg = max(c.eff_seg, 1)
+    n = 140
+    data = bytes((5 * j + 3) & 0xFF for j in range(n * seg))
+    w.vfs_a.h_put("src/hm.bin", data)
+    w.link.partition["a"] = True
+    h = a.handlers["src"]
+    rec = w.call(a, "src", "put", arg=PutRequest(w.b.eid, Path("src/hm.bin"), Path("dst/hm.bin"), ACK, False))
+    if rec.ret is True:
+        for _ in range(n + 8):
+            w.poll(a, "src")
+            if h.step.name == "WAITING_FOR_EOF_ACK":
+                break
+        tid = h.transaction_id
+        if tid is not None and h.step.name == "WAITING_FOR_EOF_ACK" and not h.num_packets_ready:
+            conf, _, _ = Synth(w, perturb=0).conf(t, "NAK", tid.seq_num.value, pert=False)
+            reqs = [(2 * k * seg, (2 * k + 1) * seg) for k in range(70)]
+            w.deliver(a, bytes(NakPdu(conf, 0, n * seg, reqs).pack()))
+            hist_log.append("many_gaps/70")
+            if h.transaction_id is not None and not h.num_packets_ready:
+                w.call(a, "src", "cancel", arg=h.transaction_id)
+            for _ in range(4):
+                w.poll(a, "src")
+        if h.state.name != "IDLE":
+            h.reset()
+            while h.get_next_packet() is not None:
+                pass
+            a.note_state("src", type("S", (), {"busy": False, "tid": None})())
+    w.link.partition["a"] = False
+    w.heap.clear()
+    w.pending = 0
+    w.polls_stopped = True
+    w.clock.now_ms += 50
+
+
 def run_history(w, t, hist_log):
     a, b = w.a, w.b
     w.tape = t
@@ -244,6 +289,7 @@ def run_history(w, t, hist_log):
         kind = H_KINDS[t.weighted([3, 2, 2, 2, 2, 2, 2, 1], "history kind")]
         if kind == "scripted_large":
             _scripted_large_history(w, t, hist_log)
+            _scripted_many_gaps_history(w, t, hist_log)
             continue
         junk_abandon = kind == "junk" and t.choose(2, "junk with abandon handlers") == 1
         mode = [ACK, UNACK][t.choose(2, "history mode")]
@@ -285,7 +331,24 @@ def run_history(w, t, hist_log):
                  ConditionCode.CHECK_LIMIT_REACHED][osel - 1],
                 [FaultHandlerCode.NOTICE_OF_CANCELLATION, FaultHandlerCode.ABANDON_TRANSACTION, FaultHandlerCode.IGNORE_ERROR,
                  FaultHandlerCode.ABANDON_TRANSACTION][osel - 1])]
-        req = PutRequest(b.eid, Path(src_name), Path(f"dst/h{i}.bin"), mode, closure, msgs_to_user=hm, fault_handler_overrides=ovr)
+        dest_eid = b.eid
+        # a silent peer that is ANOTHER remote entity (id 3, nobody there): the handler then has a past with a remote
+        # whose configuration - and whose check-timer interval, which the user's provider chooses per remote entity -
+        # is not T's (no tape entry of its own: every unacknowledged "silence" history with closure goes there)
+        ghost = kind == "silence" and mode == UNACK and closure
+        if ghost:
+            import dataclasses
+
+            from spacepackets.util import UnsignedByteField
+
+            g_eid = UnsignedByteField(3, b.eid.byte_len)
+            if a.table.get_cfg(g_eid) is None:
+                a.table.add_config(dataclasses.replace(a.rcfg, entity_id=g_eid))
+            w.check_s_by_remote = {3: 0.001}
+            w.link.partition["a"] = True
+            dest_eid = g_eid
+            hist_log[-1] += "/ghost"
+        req = PutRequest(dest_eid, Path(src_name), Path(f"dst/h{i}.bin"), mode, closure, msgs_to_user=hm, fault_handler_overrides=ovr)
         if t.choose(2, "history names the user's filestore request list") == 1 and hasattr(w, "user_fs_list"):
             req.fs_requests = w.user_fs_list
         rec = w.call(a, "src", "put", arg=req)
